@@ -205,9 +205,9 @@ LEVELS['C05'] = 'exploration'
 RULES['C05'] = 'every closed file produced by every generator mode (and copies made by jls_copy) is decoded by the independent decoder: rules R1-R7 of DESIGN 3.3 plus content comparison with the submission model; distinct = (producer, signal types/def classes, levels on disk)'
 ASSUME['C05'] = DECODER_ASSUMPTIONS
 
-CHECKS['C14'] = [file_run(m, 30 if m != 'mix' else 120, 1200, ['C14']) for m in ALL_FILE_MODES]
+CHECKS['C14'] = [file_run(m, 30 if m != 'mix' else 120, 1200, ['C14']) for m in ALL_FILE_MODES]   # + the threaded-writer run appended below
 LEVELS['C14'] = 'exploration'
-RULES['C14'] = 'every backend write of every writer run is judged online by the write-once monitor against the previous bytes (shadow copy): appends, header link patches, head-table updates, file header at close; distinct = (mode, rewrite volume classes)'
+RULES['C14'] = 'every backend write of every writer run (synchronous writer programs of all file modes; threaded-writer programs under the controlled scheduler, where write() is a scheduling point and definitions are issued by application threads while the writer thread streams) is judged online by the write-once monitor against the previous bytes (shadow copy): appends, header link patches, head-table updates, file header at close; distinct = (mode, rewrite volume classes)'
 ASSUME['C14'] = ['the monitor sees exactly the write()/ftruncate() calls of backend_posix.o (link-time interposition); the reader repair path is out of scope of the property']
 
 CHECKS['C17'] = [file_run('mix', 80, 3000, ['C17']), file_run('c13', 100, 3000, ['C17']), dict(harness='h_crash', variant='plain', args=['--copy-every', '5'], quick=2 * 16, thorough=40 * 16, props=['C17'], name='crash')]
@@ -245,6 +245,7 @@ def twr_run(focus, quick, thorough, props, variant='plain', engine='coop', name=
 
 TSAN_ENV = {'TSAN_OPTIONS': 'halt_on_error=0:exitcode=66:second_deadlock_stack=1:history_size=4'}
 CHECKS['C06'] = [twr_run('c06', 400, 40000, ['C06']), twr_run('c06', 8, 200, ['C06'], variant='tsan', engine='real', env=TSAN_ENV)]
+CHECKS['C14'].append(twr_run('c06', 300, 20000, ['C14']))
 LEVELS['C06'] = 'exploration'
 RULES['C06'] = 'case = program (1-2 application threads, 10-120 calls mixing fsr of several signals/widths, annotation, utc, user data, omit, flush; message sizes chosen against a queue of 160 B - 64 KiB so that wrap, empty-reset, full and rejection occur; drop-on-overflow on/off) x schedule (policy random / PCT depth 0-3 / starve-consumer / starve-producer / round-robin, virtual-time jump probability 0 - 1). Controlled scheduler at every lock/unlock/wait/signal/sleep point of the real code; file must decode, equal the submission model applied in queue order and equal a literal synchronous-writer reference; lockset monitor on queue and writer state; queue regions checked at the real call sites. Plus real-thread runs under ThreadSanitizer with seeded delay injection. distinct = configuration x schedule signature'
 ASSUME['C06'] = ['schedules are produced at synchronisation/suspension-point granularity (seeded policies), not exhaustively; instruction-level interleavings only through ThreadSanitizer on real threads',
